@@ -1,7 +1,7 @@
 (* Extraction of the C07 models (and the Gallina AES-128 used as the independent cipher) for the
    correspondence check. ExtrOcamlBasic only. *)
 From V.lib Require Import Base.
-From V.c07 Require Import C07Model C07Aes C07CodecModel C07TrafModel.
+From V.c07 Require Import C07Model C07Aes C07CodecModel C07TrafModel C07WrapModel.
 (* the AVC parameter-set / slice-header parsers of the C15 model (read-only import): an independent slice-header
    size function for the cbcs ranges *)
 From V.c15 Require Import C15Model C15HevcModel.
@@ -16,4 +16,5 @@ Separate Extraction
   aes128_encrypt aes128_decrypt
   bfrag encrypt_fragment_bytes
   avc_hdr hevc_hdr avc_ps_maps hevc_ps_maps avc_prot_func hevc_prot_func
+  protect_ranges_w avc_prot_func_w hevc_prot_func_w
   Z.of_N.  (* Z.of_N only so that BinNums.coq_Z exists for ocaml/vx.ml *)
